@@ -593,7 +593,16 @@ def lock_names(ctx):
             ctx.violation({'kind': 'lock-name-differs-between-processes', 'cache': n},
                           'cache %s: separately started processes derive different lock files for the same meta tiles: %s' % (
                               n, [o.get(n) for o in outs]), {'names': outs})
-    flat = [(n, i, v) for n, vs in outs[0].items() for i, v in enumerate(vs)]
+    # definitions of one store share its locks (LockName of TileCreate.tla names the meta tile of the STORE)
+    same_store = [('shared_a', 'shared_b'), ('mbshared_a', 'mbshared_b')]
+    for x, y in same_store:
+        if outs[0].get(x) != outs[0].get(y):
+            ctx.violation({'kind': 'lock-name-differs-between-definitions-of-one-store', 'caches': [x, y]},
+                          'two cache definitions that write to the same store use different lock files for the same meta tiles '
+                          '(%s: %s, %s: %s): requests through both names fetch the meta tile twice and write the same files '
+                          'at the same time' % (x, outs[0].get(x), y, outs[0].get(y)), {'names': outs[0]})
+    alias = {y: x for x, y in same_store}
+    flat = [(alias.get(n, n), i, v) for n, vs in outs[0].items() for i, v in enumerate(vs) if n not in alias]
     for a in flat:
         for b in flat:
             if a < b and a[2] == b[2] and (a[0] != b[0] or a[1] != b[1]) and not (a[0] != b[0] and False):
